@@ -6,6 +6,7 @@
 From Coq Require Import ZArith String List Bool.
 Import ListNotations.
 From TP Require Import Base.PyVal Struct.Shapes Struct.Handles Struct.HandlesProofs Struct.HandlesToday Gen.Tables Gen.TablesC04.
+From TP Require Import Base.PyOps Base.PyOps2 Base.PyObj Fields.FieldAst Struct.Instance Gen.StructGuards Struct.StructGuardProofs.
 
 (* The full statement of C04 over the model: for every class shape of an immutable class / field and
    EVERY finite sequence of client operations, the abstract state never changes.  It is FALSE of the
@@ -88,7 +89,52 @@ Proof. exact definable_bases_not_sealed. Qed.
 Theorem C04_final_check_today : final_cfg_ok today_final = true.
 Proof. vm_compute. reflexivity. Qed.
 
+(* ---- the tie to the source of the guards themselves, re-checked by the kernel on every run ----------
+   Gen/StructGuards.v is re-generated from typedpy/structures/structures.py (harness/genmods/py2v_struct.py).
+   What Structure.__setattr__, ImmutableMixin._raise_if_immutable and Field.__set__ say NOW, for every class
+   description, instance state, ordinary attribute name and value: *)
+
+(* assignment to an instantiated instance of an immutable class always raises ValueError *)
+Theorem C04_src_setattr_immutable : forall c n v,
+    c_immutable c = true -> ordinary_name n = true ->
+    Structure__setattr (struct_heap c true) (PStr n) v = Raise ValueError.
+Proof. exact generated_setattr_immutable. Qed.
+
+(* in general the prefix of __setattr__ is the documented decision *)
+Theorem C04_src_setattr : forall c inst n v,
+    ordinary_name n = true ->
+    Structure__setattr (struct_heap c inst) (PStr n) v = setattr_decision c inst n v.
+Proof. exact generated_setattr. Qed.
+
+(* the guard every wrapper mutator starts with raises exactly when the class or the field is immutable *)
+Theorem C04_src_wrapper_guard : forall fimm cimm,
+    Mixin__raise_if_immutable (wrapper_heap fimm (Some cimm)) =
+    if cimm || fimm then Raise ValueError else Ok tt.
+Proof. exact generated_raise_if_immutable. Qed.
+
+(* ... and a wrapper that is bound to NO instance is guarded by the field's flag alone (the root of F5) *)
+Theorem C04_src_wrapper_unbound : forall fimm,
+    Mixin__is_immutable (wrapper_heap fimm None) = Ok fimm.
+Proof. exact generated_is_immutable_unbound. Qed.
+
+(* Field.__set__: an immutable field that already holds a value refuses the assignment *)
+Theorem C04_src_field_set : forall fd inst a v,
+    Field__set (field_heap fd inst a) v =
+    if fd_immutable fd && alist_has a (fd_name fd) then Raise ValueError else Ok (v, inst).
+Proof. exact generated_field_set. Qed.
+
+(* Structure.__delitem__ consults the required list ONLY: no immutability test (finding F6-delitem) *)
+Theorem C04_src_delitem_unguarded : forall c n,
+    Structure__delitem (delitem_heap c) (PStr n) = if is_required c n then Raise ValueError else Ok tt.
+Proof. exact generated_delitem. Qed.
+
 Print Assumptions C04_invariant.
+Print Assumptions C04_src_setattr_immutable.
+Print Assumptions C04_src_setattr.
+Print Assumptions C04_src_wrapper_guard.
+Print Assumptions C04_src_wrapper_unbound.
+Print Assumptions C04_src_field_set.
+Print Assumptions C04_src_delitem_unguarded.
 Print Assumptions C04_invariant_tables.
 Print Assumptions C04_witness_mutator.
 Print Assumptions C04_witness_accessor.
